@@ -30,6 +30,7 @@ FILL = ["The meeting is", "we met", "and then", "xyz", "report", "...", "on", "(
 NUMS = ["12", "2015", "3", "10:45", "1/2/2015", "31.12.99", "٣", "2015-05-12", "12.05.2015", "5", "1999", "23:59:59", "१२", "１２", "0"]
 N_TEXTS = {"quick": 12, "thorough": 300}
 TAPS = {"splits": [], "best": [], "ts": []}
+_RECENT = []     # the last calls made before a case: part of its witness (replayed first)
 
 
 def install_taps():
@@ -175,7 +176,9 @@ def classify_blank():
 def check_text(ctx, text, langs, adl, base, parts=None, joiner=None):
     r, exc = run_one(text, langs, adl, base)
     ctx.ran()
-    case = {"text": text, "languages": langs, "add_detected_language": adl, "relative_base": base}
+    case = {"text": text, "languages": langs, "add_detected_language": adl, "relative_base": base, "prelude": list(_RECENT)}
+    _RECENT.append([text, langs, adl, base])
+    del _RECENT[:-2]
     if exc is not None:
         label, feats = "search-raised:%s" % type(exc).__name__, {"exc": type(exc).__name__, "frame": lib_frame(exc)}
         bad = lambda t: run_one(t, langs, adl, base)[1] is not None and type(run_one(t, langs, adl, base)[1]) is type(exc)  # noqa
@@ -310,6 +313,13 @@ def finalize(merged, tier, seed):
 def replay_case(ctx, v):
     install_taps()
     c = v["case"]
+    if c.get("prelude"):
+        # history-dependent witnesses need the recorded preceding calls, and need them first
+        for t, l, a, b in c["prelude"]:
+            run_one(t, l, a, b)
+        check_text(ctx, c["text"], c["languages"], c["add_detected_language"], c["relative_base"])
+        if ctx.violations:
+            return
     check_text(ctx, c.get("minimised_text") or c["text"], c["languages"], c["add_detected_language"], c["relative_base"])
     if not ctx.violations:
         check_text(ctx, c["text"], c["languages"], c["add_detected_language"], c["relative_base"])
